@@ -154,6 +154,21 @@ def forall_range(lo, hi, pred):
     return z3.ForAll([i], z3.Implies(z3.And(lo <= i, i < hi), pred(i)))
 
 
+def tiled(t, P, a, end):
+    """Every quote strictly between a and end belongs to exactly one pair of
+    adjacent quotes marked (1, 2) in the ghost array P -- with the closing
+    quote not followed by a quote this determines the end of a string
+    literal uniquely (a second candidate would tile a run of quotes of odd
+    and of even length)."""
+
+    def pred(i):
+        return z3.Implies(t.at(i) == Q, z3.Or(
+            z3.And(P[i] == 1, i + 1 < end, t.at(i + 1) == Q, P[i + 1] == 2),
+            z3.And(P[i] == 2, i - 1 > a, t.at(i - 1) == Q, P[i - 1] == 1)))
+
+    return pred
+
+
 def setup_scanner(eng):
     nm.install(eng)
     tm.install(eng)
@@ -354,15 +369,13 @@ def setup_scanner(eng):
             if sp is None:
                 return
             lo, hi = sp
+            P = p.ghost['P']
             inner = z3.If(
                 c == BAR,
                 forall_range(a + 1, hi - 1, lambda i: at(i) != BAR),
                 z3.And(
                     z3.Or(hi == t.size, at(hi) != Q),
-                    forall_range(a + 1, hi - 1, lambda i: z3.Implies(
-                        at(i) == Q, z3.Or(
-                            z3.And(i - 1 > a, at(i - 1) == Q),
-                            z3.And(i + 1 < hi - 1, at(i + 1) == Q))))))
+                    forall_range(a + 1, hi - 1, tiled(t, P, a, hi - 1))))
             p.oblige(f'{N}/literal-is-one-leaf-from-quote-to-closing-quote',
                      mk_bool(z3.And(lo == a, hi == pos, hi - 1 > a,
                                     hi <= t.size, at(hi - 1) == c, inner)),
@@ -486,14 +499,12 @@ def setup_scanner(eng):
 
     def lit_extra(t, a, pos):
         c = t.at(a)
+        P = cur().ghost['P']
         return [z3.Or(c == Q, c == BAR),
                 ('C08', z3.Implies(c == BAR, forall_range(
                     a + 1, pos, lambda i: t.at(i) != BAR))),
-                z3.Implies(c == Q, forall_range(
-                    a + 1, pos, lambda i: z3.Implies(
-                        t.at(i) == Q, z3.Or(
-                            z3.And(i - 1 > a, t.at(i - 1) == Q),
-                            z3.And(i + 1 < pos, t.at(i + 1) == Q)))))]
+                ('C08', z3.Implies(c == Q, forall_range(
+                    a + 1, pos, tiled(t, P, a, pos))))]
 
     eng.loop_specs[(PS, L_IDENT)] = LoopSpec(
         inv=acc_inv('token', ident_extra),
@@ -514,8 +525,30 @@ def setup_scanner(eng):
             return base
         return base + [mk_bool(fc.code == t.at(a))]
 
+    def lit_entry(e, env_, p):
+        p.ghost['P'] = z3.Array(p.fresh_name('pairs0'), z3.IntSort(),
+                                z3.IntSort())
+
+    def lit_havoc(e, env_, p):
+        acc_havoc('literal')(e, env_, p)
+        p.ghost['P'] = z3.Array(p.fresh_name('pairs'), z3.IntSort(),
+                                z3.IntSort())
+
+    def lit_start(e, env_, p):
+        p.ghost['lit_pos'] = zi(env_.vars['pos'])
+
+    def lit_end(e, env_, p):
+        # ghost update: an iteration that consumed two characters consumed an
+        # escaped quote -- mark the pair
+        pos0 = p.ghost['lit_pos']
+        pos = zi(env_.vars['pos'])
+        P = p.ghost['P']
+        p.ghost['P'] = z3.If(pos == pos0 + 2,
+                             z3.Store(z3.Store(P, pos0, 1), pos0 + 1, 2), P)
+
     eng.loop_specs[(PS, L_LIT)] = LoopSpec(
-        inv=lit_inv, havoc={'effect:state': acc_havoc('literal')},
+        inv=lit_inv, havoc={'effect:state': lit_havoc},
+        on_entry=lit_entry, on_iter_start=lit_start, on_iter_end=lit_end,
         decreases=lambda e, env_: SNum(
             T(env_).size + 1 - zi(env_.vars['pos'])))
 
